@@ -41,7 +41,9 @@ def run_schedule(cfg, prefix):
     ep = s.ep
     conn = ep.conn
     try:
-        for rev in [{"t": "attach"}, RF("LOGON", 0), RS("APP", "11=a"), RS("HB"), RS("APP", "11=b")]:
+        pre = [{"t": "attach"}] if cfg.get("init") == "nce" else \
+              [{"t": "attach"}, RF("LOGON", 0), RS("APP", "11=a"), RS("HB"), RS("APP", "11=b")]
+        for rev in pre:
             s.apply(rev)
         first = conn._session.next_num_out
         mark = len(ep.sent)
@@ -70,9 +72,25 @@ def run_schedule(cfg, prefix):
             except Exception as ex:
                 results["hb"] = type(ex).__name__
 
+        async def sess(name, mt):
+            await sch.gate("start")
+            try:
+                m = FIXMessage(mt)
+                if mt == FMsg.LOGON:
+                    m[FTag.EncryptMethod] = "0"
+                    m[FTag.HeartBtInt] = "30"
+                await conn.send_msg(m)
+                results[name] = "none"
+            except Exception as ex:
+                results[name] = type(ex).__name__
+
         sch.active = True
         asyncio.events._set_running_loop(loop)
         try:
+            if cfg.get("logon"):
+                loop.create_task(sess("lg", FMsg.LOGON), name="lg")
+            if cfg.get("logout"):
+                loop.create_task(sess("lo", FMsg.LOGOUT), name="lo")
             for name in cfg.get("apps", []):
                 loop.create_task(app(name), name=name)
             if cfg.get("hb"):
@@ -102,6 +120,8 @@ def run_schedule(cfg, prefix):
                     data = s.peer.frame("RR", nin, b=1, e=0)
                 elif o == "TR":
                     data = s.peer.frame("TR", nin, trid="T9")
+                elif o == "LOGON":
+                    data = s.peer.frame("LOGON", nin)
                 elif o == "GAP":
                     data = s.peer.frame("APP", nin + 2, pay="g")
                 else:
@@ -121,7 +141,7 @@ def run_schedule(cfg, prefix):
         post = proj_int(ep)
         rec = {"id": "s" + "".join(map(str, choices)), "first": first, "wire": wire,
                "results": [{"task": t, "exc": r} for t, r in sorted(results.items())],
-               "expected_tasks": len(cfg.get("apps", [])) + (1 if cfg.get("hb") else 0),
+               "expected_tasks": len(cfg.get("apps", [])) + (1 if cfg.get("hb") else 0) + (1 if cfg.get("logon") else 0) + (1 if cfg.get("logout") else 0),
                "jout": post["jout"], "sout": post["sout"], "nout": post["nout"], "cs": post["cs"],
                "choices": choices, "nopts": nopts, "cfg": cfg}
     except Exception as ex:
